@@ -231,31 +231,17 @@ theorem C16_rect_metric_is_spec (lo hi a b : Pt) (hab : a ≠ b) :
       exact ⟨fun _ => segMeetsRect_of_endpoint lo hi a b this, fun _ => rfl⟩
     · rw [if_neg hP]
       by_cases hpt : (lo == hi) = true
-      · -- the rectangle is a single point
+      · -- the rectangle is a single point: on the line (exact) and between the end points
+        -- coordinate-wise (since fix F34; before: a rounded projection)
         rw [if_pos hpt]
         have hlh : lo = hi := by simpa using hpt
         subst hlh
-        rw [C06_on_line_iff, Bool.and_eq_true, decide_eq_true_eq, is_on_edge_iff]
-        unfold SegMeetsRect
+        rw [C06_on_line_iff, Bool.and_eq_true, decide_eq_true_eq]
+        unfold is_collinear_point_on_segment SegMeetsRect
+        simp only [is_between, FL.le, Bool.and_eq_true, Bool.or_eq_true, decide_eq_true_eq]
         constructor
-        · rintro ⟨hc, h0, h1⟩
-          have hb := (collinear_box_dot (b.x - a.x) (b.y - a.y) (lo.x - a.x) (lo.y - a.y)
-            (by by_contra h; apply hab; cases a; cases b; simp_all; omega)
-            (by unfold orient at hc; linarith)).mpr ⟨by unfold dotFrom at h0; linarith, by unfold dotFrom at h1; linarith⟩
-          obtain ⟨b1, b2, b3, b4⟩ := hb
-          refine ⟨le_refl _, le_refl _, ?_, ?_, ?_, ?_, ?_, ?_⟩
-          · rcases le_total a.x b.x with h | h
-            · rw [min_eq_left h]; rw [min_eq_left (by omega : (0:Int) ≤ b.x - a.x)] at b1; omega
-            · rw [min_eq_right h]; rw [min_eq_right (by omega : b.x - a.x ≤ (0:Int))] at b1; omega
-          · rcases le_total a.x b.x with h | h
-            · rw [max_eq_right h]; rw [max_eq_right (by omega : (0:Int) ≤ b.x - a.x)] at b2; omega
-            · rw [max_eq_left h]; rw [max_eq_left (by omega : b.x - a.x ≤ (0:Int))] at b2; omega
-          · rcases le_total a.y b.y with h | h
-            · rw [min_eq_left h]; rw [min_eq_left (by omega : (0:Int) ≤ b.y - a.y)] at b3; omega
-            · rw [min_eq_right h]; rw [min_eq_right (by omega : b.y - a.y ≤ (0:Int))] at b3; omega
-          · rcases le_total a.y b.y with h | h
-            · rw [max_eq_right h]; rw [max_eq_right (by omega : (0:Int) ≤ b.y - a.y)] at b4; omega
-            · rw [max_eq_left h]; rw [max_eq_left (by omega : b.y - a.y ≤ (0:Int))] at b4; omega
+        · rintro ⟨hc, hx, hy⟩
+          refine ⟨le_refl _, le_refl _, by omega, by omega, by omega, by omega, ?_, ?_⟩
           · rintro ⟨c1, _⟩; omega
           · rintro ⟨c1, _⟩; omega
         · rintro ⟨_, _, m1, m2, m3, m4, n1, n2⟩
@@ -264,25 +250,7 @@ theorem C16_rect_metric_is_spec (lo hi a b : Pt) (hab : a ≠ b) :
             rcases lt_or_gt_of_ne h with h | h
             · exact n2 ⟨h, h, h, h⟩
             · exact n1 ⟨h, h, h, h⟩
-          have hb := (collinear_box_dot (b.x - a.x) (b.y - a.y) (lo.x - a.x) (lo.y - a.y)
-            (by by_contra h; apply hab; cases a; cases b; simp_all; omega)
-            (by unfold orient at hc; linarith)).mp (by
-              refine ⟨?_, ?_, ?_, ?_⟩
-              · rcases le_total a.x b.x with h | h
-                · rw [min_eq_left (by omega : (0:Int) ≤ b.x - a.x)]; rw [min_eq_left h] at m1; omega
-                · rw [min_eq_right (by omega : b.x - a.x ≤ (0:Int))]; rw [min_eq_right h] at m1; omega
-              · rcases le_total a.x b.x with h | h
-                · rw [max_eq_right (by omega : (0:Int) ≤ b.x - a.x)]; rw [max_eq_right h] at m2; omega
-                · rw [max_eq_left (by omega : b.x - a.x ≤ (0:Int))]; rw [max_eq_left h] at m2; omega
-              · rcases le_total a.y b.y with h | h
-                · rw [min_eq_left (by omega : (0:Int) ≤ b.y - a.y)]; rw [min_eq_left h] at m3; omega
-                · rw [min_eq_right (by omega : b.y - a.y ≤ (0:Int))]; rw [min_eq_right h] at m3; omega
-              · rcases le_total a.y b.y with h | h
-                · rw [max_eq_right (by omega : (0:Int) ≤ b.y - a.y)]; rw [max_eq_right h] at m4; omega
-                · rw [max_eq_left (by omega : b.y - a.y ≤ (0:Int))]; rw [max_eq_left h] at m4; omega)
-          refine ⟨hc, ?_, ?_⟩
-          · unfold dotFrom; linarith [hb.1]
-          · unfold dotFrom; linarith [hb.2]
+          exact ⟨hc, by omega, by omega⟩
       · rw [if_neg hpt]
         -- proper rectangle (or a segment), no end point inside: bounding boxes, then the corners
         simp only [FL.lt, FL.gt, Bool.or_eq_true, decide_eq_true_eq, List.all_cons, List.all_nil,
